@@ -135,48 +135,44 @@ struct ActivityContext<'a> {
 
 fn match_place(single: &Arc<Single>, is_job_activity: bool, activity_ctx: &ActivityContext) -> Option<Place> {
     let job_id = get_job_id(single);
-    let job_tag =
-        get_job_tag(single, (activity_ctx.location, (activity_ctx.time.clone(), activity_ctx.route_start_time)));
-
     let is_same_ids = *activity_ctx.job_id == job_id;
-    let is_same_tags = match (job_tag, activity_ctx.tag) {
-        (Some(job_tag), Some(activity_tag)) => job_tag == activity_tag,
-        (None, None) => true,
-        _ => false,
-    };
 
-    match (is_same_tags, is_same_ids, is_job_activity) {
-        (true, false, true) => None,
-        (true, true, _) | (true, false, false) => single
-            .places
-            .iter()
-            .enumerate()
-            .find(|(_, place)| {
-                let is_same_location = place.location.is_none_or(|l| l == activity_ctx.location);
-                let is_proper_time =
-                    place.times.iter().any(|time| time.intersects(activity_ctx.route_start_time, &activity_ctx.time));
-
-                is_same_location && is_proper_time
-            })
-            .map(|(idx, place)| {
-                // NOTE search for the latest occurrence assuming that times are sorted
-                let time = place
-                    .times
-                    .iter()
-                    .rfind(|time| time.intersects(activity_ctx.route_start_time, &activity_ctx.time))
-                    .unwrap();
-
-                let time = match time {
-                    TimeSpan::Window(tw) => tw.clone(),
-                    TimeSpan::Offset(_) => {
-                        TimeWindow::new(activity_ctx.time.end - place.duration, activity_ctx.time.end)
-                    }
-                };
-
-                Place { idx, location: activity_ctx.location, duration: place.duration, time }
-            }),
-        _ => None,
+    if is_job_activity && !is_same_ids {
+        return None;
     }
+
+    let tags = single.dimens.get_place_tags();
+    let get_place_tag =
+        |place_idx: usize| tags.and_then(|tags| tags.iter().find(|(idx, _)| *idx == place_idx)).map(|(_, tag)| tag);
+
+    // NOTE: more than one place can be matched by location and time, so use tag to find the actual one
+    single
+        .places
+        .iter()
+        .enumerate()
+        .filter(|(_, place)| {
+            let is_same_location = place.location.is_none_or(|l| l == activity_ctx.location);
+            let is_proper_time =
+                place.times.iter().any(|time| time.intersects(activity_ctx.route_start_time, &activity_ctx.time));
+
+            is_same_location && is_proper_time
+        })
+        .find(|(idx, _)| get_place_tag(*idx) == activity_ctx.tag)
+        .map(|(idx, place)| {
+            // NOTE search for the latest occurrence assuming that times are sorted
+            let time = place
+                .times
+                .iter()
+                .rfind(|time| time.intersects(activity_ctx.route_start_time, &activity_ctx.time))
+                .unwrap();
+
+            let time = match time {
+                TimeSpan::Window(tw) => tw.clone(),
+                TimeSpan::Offset(_) => TimeWindow::new(activity_ctx.time.end - place.duration, activity_ctx.time.end),
+            };
+
+            Place { idx, location: activity_ctx.location, duration: place.duration, time }
+        })
 }
 
 pub(crate) fn get_extra_time(stop: &PointStop, activity: &FormatActivity, place: &Place) -> Option<Float> {
@@ -198,28 +194,6 @@ pub(crate) fn get_extra_time(stop: &PointStop, activity: &FormatActivity, place:
             }
         })
         .next()
-}
-
-pub(super) fn get_job_tag(single: &Single, place: (Location, (TimeWindow, Timestamp))) -> Option<&String> {
-    let (location, (time_window, start_time)) = place;
-    single.dimens.get_place_tags().map(|tags| (tags, &single.places)).and_then(|(tags, places)| {
-        tags.iter()
-            .find(|(place_idx, _)| {
-                let place = places.get(*place_idx).expect("invalid tag place index");
-
-                let is_correct_location = place.location.is_none_or(|l| location == l);
-                let is_correct_time = place
-                    .times
-                    .iter()
-                    .map(|time| time.to_time_window(start_time))
-                    .any(|time| time.intersects(&time_window));
-
-                // TODO check duration too?
-
-                is_correct_location && is_correct_time
-            })
-            .map(|(_, tag)| tag)
-    })
 }
 
 fn get_job_id(single: &Arc<Single>) -> String {
